@@ -3,7 +3,8 @@ import EmbitModel.Model.Tx
   Model of embit's signature-hash code: `SIGHASH.check`, `TransactionInput.write_to(script_sig, sighash)`,
   `Transaction.sighash_legacy / sighash_segwit / sighash_taproot` (transaction.py) — the same text is duplicated in
   `PSBTView.sighash_*` (psbtview.py) over `vin(i)` / `vout(i)` accessors; both copies are tied to this model by
-  the correspondence. Follows the code after the C01 `fix:` commits. `sha` is SHA-256 (a parameter).
+  the correspondence. Follows the code after the C01 `fix:` commits and `fixes/fix-taproot-hashtype.diff`
+  (taproot: hash type 0x80 and a `script_pubkeys` list of the wrong length are refused). `sha` is SHA-256 (a parameter).
   The digest memo fields (`_hash_prevouts` …) are modelled in `Model/Heap.lean` (C19); here a fresh object.
 -/
 namespace Embit.Model
@@ -110,9 +111,11 @@ def sighashTaproot (sha : Bytes → Bytes) (t : Tx) (idx : Nat) (spks : List Byt
     (codesep : Option Nat) : Option Bytes :=
   if idx ≥ t.vin.length then none else
   if values.length ≠ t.vin.length then none else
+  if spks.length ≠ t.vin.length then none else     -- "All spent scripts are required"
   match sighashCheck f with
   | none => none
   | some (sh, acp) =>
+    if acp && sh == 0 then none else   -- 0x80 is not a hash type of BIP-341
     if f ≥ 256 then none else   -- bytes([sighash])
     let spendType := 2 * extFlag + (if annex.isSome then 1 else 0)
     if spendType ≥ 256 then none else
